@@ -71,9 +71,14 @@ let register () =
   (* the server level (ServerManager / Group / delayed cleanup): calls per event *)
   Registry.register "c10.sm" (function
       | [stream; cf; evs] ->
+        (* optional fifth field: hls.enable / hls.enable_https as two digits *)
+        let cf, sw = match String.split_on_char ':' cf with
+          | [a; b; c; d; sw] -> String.concat ":" [a; b; c; d], sw
+          | _ -> cf, "10" in
+        let g = { HlsServer.sw_http = (sw.[0] = '1'); sw_https = (sw.[1] = '1') } in
         let c = parse_cfg stream cf in
         let evs = if evs = "-" then [] else Stdlib.List.map parse_sev (String.split_on_char ',' evs) in
-        let groups = HlsServer.srv_run_ev c evs in
+        let groups = HlsServer.srv_run_ev_sw g c evs in
         let show = show_op c in
         Printf.sprintf "ev %s files %s"
           (if groups = [] then "-" else
